@@ -209,7 +209,15 @@ func H_C20_keyed(which, n int) {
 			zzrt.Cover("rejected")
 		}
 	case 1:
-		err := cu.HandleOptions([]string{"template=" + v, "gen_deep_equal"})
+		// the implication template=slim => no deep-equal holds wherever the two options stand
+		lists := [][]string{
+			{"template=" + v, "gen_deep_equal"},
+			{"gen_deep_equal", "template=" + v},
+			{"gen_deep_equal=true", "template=" + v, "naming_style=golint"},
+			{"gen_deep_equal", "package_prefix=x/y", "template=" + v, "use_package=a=b"},
+			{"template=" + v, "gen_setter", "gen_deep_equal=true"},
+		}
+		err := cu.HandleOptions(lists[zzrt.Choose("order", len(lists))])
 		ok := v == "slim" || v == "raw_struct" || v == "default"
 		zzrt.Assert((err == nil) == ok, "template accepts exactly the documented templates")
 		if ok {
